@@ -112,6 +112,7 @@ impl Node {
             _ => {}
         }
     }
+    pub fn has_rawpkh(&self) -> bool { let mut v = vec![]; self.rawpkhs(&mut v); !v.is_empty() }
     /// raw key-hash atoms appearing
     pub fn rawpkhs(&self, acc: &mut Vec<u32>) {
         use Node::*;
@@ -238,7 +239,7 @@ pub fn emit_defs(out: &mut Out) {
             out.line(&format!("D hash {} {} {} {}", kind.name(), h, hex(&hash_value(kind, h)), hex(&preimage(h))), "ok");
         }
     }
-    for h in (0..4).chain(200..204) {
+    for h in (0..4).chain(100..104).chain(200..204) {
         out.line(&format!("D rawpkh {} {}", h, hex(raw_pkh(h).as_byte_array())), "ok");
     }
 }
@@ -310,6 +311,86 @@ macro_rules! with_ctx {
             $crate::ast::CtxK::Tap => $f::<miniscript::bitcoin::secp256k1::XOnlyPublicKey, miniscript::Tap>($($arg),*),
         }
     };
+}
+
+/// Designated fragments for the input classes that the quota enumeration over the small quick-tier
+/// atoms does not reach (each was the hiding place of a seeded change or of an audit finding):
+/// uncompressed keys in every key position, one point in both encodings, all hash kinds, both lock
+/// units, two DISTINCT locks of one unit on one path, thresholds with lock children, multisig
+/// with surplus signatures, one-child thresholds, raw key hashes (incl. of uncompressed keys).
+/// All are accepted by `from_ast` in `ctx` (callers filter by `to_ms` anyway).
+pub fn dimension_corpus(ctx: CtxK) -> Vec<Node> {
+    use Node::*;
+    let tap = ctx == CtxK::Tap;
+    let b = if tap { 200 } else { 0 };
+    let bx = |n: Node| Box::new(n);
+    let pk = |i: u32| Check(bx(PkK(b + i)));
+    let pkh = |i: u32| Check(bx(PkH(b + i)));
+    let v = |n: Node| Verify(bx(n));
+    let mut c: Vec<Node> = vec![];
+    // hashes: all four kinds, satisfied and dissatisfied positions
+    for (i, k) in HK::ALL.iter().enumerate() {
+        c.push(AndV(bx(v(pk(0))), bx(Hash(*k, i as u32))));
+        c.push(OrD(bx(pk(0)), bx(AndV(bx(v(pk(1))), bx(Hash(*k, i as u32))))));
+        c.push(AndB(bx(pk(0)), bx(Alt(bx(Hash(*k, i as u32))))));
+        c.push(Thresh(2, vec![pk(0), Swap(bx(pk(1))), Alt(bx(Hash(*k, i as u32)))]));
+    }
+    // both lock units; two distinct locks of one unit on one path, both orders
+    for (x, y) in [(100u32, 200u32), (200, 100), (500_000_001, 500_000_100), (500_000_100, 500_000_001)] {
+        c.push(AndV(bx(v(pk(0))), bx(AndV(bx(v(After(x))), bx(After(y))))));
+        c.push(AndV(bx(v(After(x))), bx(AndV(bx(v(pk(0))), bx(After(y))))));
+    }
+    for (x, y) in [(10u32, 20u32), (20, 10), (4_194_305, 4_194_400), (4_194_400, 4_194_305), (65_546, 20)] {
+        c.push(AndV(bx(v(pk(0))), bx(AndV(bx(v(Older(x))), bx(Older(y))))));
+        c.push(AndB(bx(AndV(bx(v(pk(0))), bx(Older(x)))), bx(Alt(bx(AndV(bx(v(pk(1))), bx(Older(y))))))));
+    }
+    c.push(OrD(bx(pk(0)), bx(AndV(bx(v(pk(1))), bx(After(500_000_001))))));
+    c.push(OrD(bx(pk(0)), bx(AndV(bx(v(pk(1))), bx(Older(4_194_305))))));
+    c.push(OrI(bx(AndV(bx(v(pk(0))), bx(After(100)))), bx(AndV(bx(v(pk(1))), bx(After(500_000_001))))));
+    // thresholds with lock children (sane shapes: s:l:n:after / older)
+    let sln = |n: Node| Swap(bx(OrI(bx(False), bx(ZeroNotEqual(bx(n))))));
+    c.push(Thresh(2, vec![pk(0), Swap(bx(pk(1))), sln(After(100))]));
+    c.push(Thresh(2, vec![pk(0), Swap(bx(pk(1))), sln(Older(10))]));
+    c.push(Thresh(2, vec![pk(0), Swap(bx(pk(1))), sln(Older(10)), sln(After(200))]));
+    c.push(Thresh(3, vec![pk(0), sln(After(100)), sln(After(200))]));
+    c.push(Thresh(1, vec![pk(0)]));
+    c.push(Thresh(1, vec![AndV(bx(v(pk(0))), bx(Older(10)))]));
+    // multisig with surplus signatures / wide
+    let ks = |v: &[u32]| v.iter().map(|i| b + i).collect::<Vec<u32>>();
+    if tap {
+        c.push(MultiA(2, ks(&[0, 1, 2, 3, 4])));
+        c.push(MultiA(4, ks(&[0, 1, 2, 3])));
+        c.push(SortedMultiA(3, ks(&[9, 8, 1, 0, 5])));
+    } else {
+        c.push(Multi(2, ks(&[0, 1, 2, 3, 4])));
+        c.push(Multi(4, ks(&[0, 1, 2, 3])));
+        c.push(SortedMulti(3, ks(&[9, 8, 1, 0, 5])));
+    }
+    // raw key hashes
+    let rp = |h: u32| Check(bx(RawPkH(h)));
+    c.push(rp(b));
+    c.push(OrD(bx(rp(b)), bx(pk(1))));
+    c.push(AndV(bx(v(rp(b))), bx(pk(1))));
+    // uncompressed keys (legal in Bare / Legacy only; elsewhere from_ast refuses them)
+    if matches!(ctx, CtxK::Bare | CtxK::Legacy) {
+        let upk = |i: u32| Check(bx(PkK(100 + i)));
+        let upkh = |i: u32| Check(bx(PkH(100 + i)));
+        c.push(upk(0));
+        c.push(upkh(0));
+        c.push(AndV(bx(v(pk(0))), bx(upk(1))));
+        c.push(OrB(bx(upkh(0)), bx(Alt(bx(pk(1))))));       // pk_h dissatisfied: 65-byte key pushed
+        c.push(OrD(bx(upk(0)), bx(pk(0))));                   // one point in both encodings
+        c.push(Multi(1, vec![100, 0, 101]));
+        c.push(Multi(2, vec![100, 1, 101, 2]));
+        c.push(SortedMulti(2, vec![3, 101, 2]));
+        c.push(SortedMulti(1, vec![0, 100]));
+        c.push(Thresh(2, vec![upk(0), Swap(bx(pkh(1))), Swap(bx(upkh(2)))]));
+        c.push(rp(100));
+        c.push(OrD(bx(rp(100)), bx(pk(1))));
+        c.push(AndV(bx(v(rp(100))), bx(pk(0))));
+    }
+    let _ = pkh;
+    c
 }
 
 /// key ids usable in a context
